@@ -98,6 +98,7 @@ func Load(o Options) (*Program, error) {
 	}
 	prog, spkgs := ssautil.Packages(pkgs, ssa.InstantiateGenerics)
 	prog.Build()
+	curFset = pkgs[0].Fset
 	P := &Program{
 		Dir:     o.Dir,
 		Fset:    pkgs[0].Fset,
@@ -135,9 +136,15 @@ func Load(o Options) (*Program, error) {
 		P.Funcs = append(P.Funcs, fn)
 	}
 	sort.Slice(P.Funcs, func(i, j int) bool {
+		// by file name and offset, not by token.Pos: files are parsed in parallel and their base offsets in the
+		// file set differ from run to run
 		a, b := P.Funcs[i], P.Funcs[j]
-		if a.Pos() != b.Pos() {
-			return a.Pos() < b.Pos()
+		pa, pb := P.Fset.Position(a.Pos()), P.Fset.Position(b.Pos())
+		if pa.Filename != pb.Filename {
+			return pa.Filename < pb.Filename
+		}
+		if pa.Offset != pb.Offset {
+			return pa.Offset < pb.Offset
 		}
 		return a.String() < b.String()
 	})
@@ -334,4 +341,20 @@ func Outermost(fn *ssa.Function) *ssa.Function {
 		fn = fn.Parent()
 	}
 	return fn
+}
+
+// curFset is the file set of the program under analysis (one program at a time).
+var curFset *token.FileSet
+
+// PosLess orders two positions by file name and offset. token.Pos values themselves are not comparable across
+// files from run to run: files are parsed in parallel and get their base offsets in the order they finish.
+func PosLess(a, b token.Pos) bool {
+	if curFset == nil {
+		return a < b
+	}
+	pa, pb := curFset.Position(a), curFset.Position(b)
+	if pa.Filename != pb.Filename {
+		return pa.Filename < pb.Filename
+	}
+	return pa.Offset < pb.Offset
 }
